@@ -29,6 +29,106 @@ CLAIMED = {
     ),
 }
 
+CLAIMED.update({
+    "C01": dict(
+        text=("Bounded model checking of the builder->reader data path on the real code: ArchiveBuilder::write_file output, placed in an "
+              "in-memory archive image, is read back bit-identically by Archive::read_file for every file content of the bounded size, per "
+              "configuration (plain / compressed through an abstract codec pair / encrypted / position-adjusted key / sector checksum), under a "
+              "different case/slash spelling of the name; a never-added name is not found. Hash-table insertion/lookup is decided for every "
+              "assignment of hash values under C06; name folding and hashes under C04."),
+        design_ref="DESIGN.md section 4, C01",
+        note=("Trusted: Kani/CBMC; the in-memory File model; the abstract codec pair (compress returns the input or method byte + 3 arbitrary "
+              "bytes, decompress inverts exactly that) which abstracts from zlib/bzip2/LZMA. Outside: real codecs inside the path, multi-sector "
+              "files (thorough tier only where affordable), Archive::open / table loading, V3/V4 HET/BET tables, listfile and attributes "
+              "generation, whole-archive build through temp files. The configuration product is not swept; each mechanism is decided for all "
+              "contents within its bound."),
+    ),
+    "C02": dict(
+        text=("The independent implementation is a reference written from the published MPQ format (harness/ref/mpq_spec.rs: crypt table, "
+              "HashString, block cipher, table keys, header field offsets, 16-byte table entries, flag and method constants). Decided for all "
+              "field values: header bytes the builder writes equal the published offsets for v1..v4 and the real reader recovers them; hash and "
+              "block table bytes decrypt under the format's cipher/key to the published entry layout, and reference-encoded tables load through "
+              "the real loaders; the file key schedule (plain name, position adjustment) equals the format's."),
+        design_ref="DESIGN.md section 4, C02",
+        note=("Trusted: the reference (spec-derived, independent of the repository code). Known findings excluded by explicit assumptions and "
+              "re-witnessed each run: KF-C02-hetbet-order (v3/v4 header writes HET/BET positions swapped), KF-C02-key-path (file key hashed "
+              "from the full path). Outside: zlib/bzip2 payload conformance, sector layout of whole archives through Archive::open, V3+ tables."),
+    ),
+    "C03": dict(
+        text=("Store-raw rule of compress() decided for EVERY behaviour of the codec behind it (the codec is a nondeterministic stub): the stored "
+              "form is never longer than the input, non-shrinking output is stored raw byte-for-byte, shrinking output is method byte + payload. "
+              "Every (payload size, true size) pair the compressor can emit for sizes up to 2 MiB (100 MiB thorough) is accepted by "
+              "validate_decompression_operation under the default limits, per method selector, assuming only the format-level ratio ceiling of "
+              "the codec. RLE decoder equals a reference decoder (C08)."),
+        design_ref="DESIGN.md section 4, C03",
+        note=("Trusted: the codec abstraction. Known finding KF-C03-ratio (fixed 1000:1 ratio test rejects the library's own output, e.g. zlib of "
+              "2 MiB zeros) is excluded by assumption and witnessed. Outside: round trips through the real zlib/bzip2/LZMA/PKWare/Huffman/sparse "
+              "codecs (external crates or Vec-growing loops that exceed CBMC's reach: sparse::compress at length 3 timed out at 15 min), ADPCM "
+              "length/interleave beyond decoder totality."),
+    ),
+    "C05": dict(
+        text=("Per parser kernel, for ALL byte contents within the bound: value or error, no panic, no arithmetic overflow, no out-of-bounds "
+              "index, loops bounded (unwinding assertions). Kernels: MPQ header parse (4 versions, truncated too) and header discovery "
+              "(termination), security validators and their accept-postconditions, classic hash/block table decoders and lookup, patch header "
+              "and BSD0 applier on hostile headers, ADPCM decoder (12-byte inputs), RLE decoder, DBC/WDB2/WDB5 header parsers and string-block "
+              "lookups; plus the per-format parser kernels registered by the format properties (C13-C16, C18)."),
+        design_ref="DESIGN.md section 4, C05",
+        note=("Outside: whole-file opens (Archive::open, parse_m2, parse_adt, parse_wmo) - out of CBMC's reach even for one symbolic header "
+              "field; zlib/bzip2/LZMA/PKWare/Huffman/JPEG decoders; stack depth; inputs larger than the listed bounds; allocation-size caps "
+              "(not yet monitored). 'Every byte string' is decided only per kernel and bound; composition of kernels is not."),
+    ),
+    "C06": dict(
+        text=("Inductive step over the real MutableArchive code: from an ARBITRARY 4-slot hash-table state satisfying an explicit "
+              "representation invariant, one real remove_file / rename_file / add_to_hash_table acts on the abstract name->block map exactly as "
+              "on a plain map, a failing operation leaves the map unchanged, the invariant is preserved (so any history is covered), lookups "
+              "agree with the map, and probe loops terminate - decided for EVERY assignment of hash values (hash_string is a symbolic function), "
+              "i.e. every collision pattern, home slot and wrap-around."),
+        design_ref="DESIGN.md section 4, C06",
+        note=("Trusted: adequacy of the invariant (reachable states satisfy it - argued, not proved). Known finding KF-C06-full-table (insertion "
+              "never returns on a table without free slot) excluded by assumption and witnessed as a non-terminating loop. Outside: everything "
+              "on disk (flush + reopen, compaction, listfile/attributes rewriting, block-table growth vs appended data), V3+ tables."),
+    ),
+    "C08": dict(
+        text=("Patch applier on the real code: apply_patch returns an error whenever either digest check fails and the bytes it returns are "
+              "exactly those submitted to the after-check (digest checks are nondeterministic stubs: decided for every outcome); COPY size "
+              "checks; a well-formed bsdiff stream turns old into new for all 4-byte old/new; RLE decoder equals a reference decoder for all "
+              "inputs of the listed lengths; patch header fields are read from the documented offsets."),
+        design_ref="DESIGN.md section 4, C08",
+        note=("Known finding KF-C08-bsd0-overflow (32 + ctrl_block_size overflows) excluded and witnessed. Outside: chain ordering and "
+              "content resolution across archives (PatchChain: HashMap<String,_> + file I/O; a two-entry chain step exceeded 14 GB), parallel "
+              "loading, MD5 values themselves."),
+    ),
+    "C10": dict(
+        text=("Signature padding exactness on the real verifier: the padding the library produces verifies, NO other 64-byte block verifies "
+              "for a digest (so any change to the decrypted signature block is detected), a different digest never verifies; same for the "
+              "256-byte strong padding (thorough). The weak-signature digest is fed exactly the signed byte range with the signature window "
+              "zeroed (MD5 compression function replaced by a recording tap). Sector-checksum enforcement on single-unit files runs under C01 "
+              "(thorough)."),
+        design_ref="DESIGN.md section 4, C10",
+        note=("Outside: RSA (modpow on 512/2048-bit integers), digest values (second pre-images), sector checksums of compressed multi-sector "
+              "files (the reader skips them: seen by reading, needs a real codec to reach), V4 header/table digests and (attributes) CRC32/MD5 "
+              "verification (need Archive::open / the FFI verify calls)."),
+    ),
+    "C17": dict(
+        text=("DBC writer/reader kernels: per scalar field type, write_value(parse_field_value(b)) == b and both move FieldType::size() bytes "
+              "for all contents; the header DbcWriter emits for any schema of <= 3 fields (types and array sizes symbolic) satisfies the size law "
+              "and is accepted by Schema::validate of the same schema; header parsers (WDBC/WDB2/WDB5) and string-block lookups are total."),
+        design_ref="DESIGN.md section 4, C17",
+        note=("Trusted: RandomState fixed (HashMap with concrete keys only). Fixed defect KF-C17-array-field-count (dc3511e). Outside: lazy / mmap / "
+              "rayon access paths, string de-duplication over symbolic strings, key lookups through HashMap with symbolic keys, tables beyond "
+              "3 fields."),
+    ),
+    "C19": dict(
+        text=("Single-threaded C-API steps on the real extern functions: null handles are reported as ERROR_INVALID_HANDLE and nothing is "
+              "written through caller pointers (all arguments symbolic); thorough: from a fabricated open-file state, SFileSetFilePointer never "
+              "panics, keeps the cursor inside the file and returns it, SFileReadFile copies exactly min(to_read, remaining) bytes and writes "
+              "nothing beyond them (guard zone), stale and closed handles are errors."),
+        design_ref="DESIGN.md section 4, C19",
+        note=("Outside: threads and lock order (Kani has no scheduler), every function that opens/creates/adds/flushes/compacts an archive "
+              "(file I/O), agreement of contents with the Rust API, find handles."),
+    ),
+})
+
 NOT_APPLICABLE = {
     "C07": "rebuild is an orchestration over Archive::open + ArchiveBuilder::build through NamedTempFile/persist (file I/O and FFI); Archive::open on even one symbolic field exceeds 14 GB in CBMC; no arithmetic kernel of its own to encode (DESIGN.md section 5)",
     "C09": "quantifies over thread schedules of a rayon pool; Kani/CBMC model no concurrency and rayon's runtime is FFI (DESIGN.md section 5)",
@@ -36,7 +136,7 @@ NOT_APPLICABLE = {
     "C12": "quantifies over kill points and failing system calls of an OS process; the deciding code is tempfile + rename in the kernel/FFI (DESIGN.md section 5)",
     "C20": "property of whole process runs (argument parsing, error propagation to main, stdout); no unit a bounded model checker can drive (DESIGN.md section 5)",
 }
-for _p in ["C01", "C02", "C03", "C05", "C06", "C08", "C10", "C13", "C14", "C15", "C16", "C17", "C19"]:
+for _p in ["C13", "C14", "C15", "C16"]:
     NOT_APPLICABLE.setdefault(_p, WIP)
 
 NOTES = ("Exit codes of bin/check: 0 held, 1 violation (replayed), 2 inconclusive (build error, time-out, OOM, vacuous harness, "
